@@ -1,14 +1,28 @@
 import PbVerif.Model.Proto
 import PbVerif.Model.Weighting
+import PbVerif.Model.WExpr
+import PbVerif.Gen.WeightExprs
 namespace PbVerif.Drv.C09
-open PbVerif PbVerif.Proto PbVerif.Weighting
+open PbVerif PbVerif.Proto PbVerif.Weighting PbVerif.WExpr
 
 def fbits? (s : String) : Option Float := s.toNat?.map fun n => Float.ofBits (UInt64.ofNat n)
 def flist? (s : String) : Option (List Float) := if s = "-" then some [] else (s.splitOn ",").mapM fbits?
 def showF (l : List Float) : String := if l.isEmpty then "-" else ",".intercalate (l.map fun f => toString f.toBits.toNat)
 def out (r : RuleOut) : String := s!"{if r.exitEarly then 1 else 0}|{showF r.w}"
 
+/-- `name=value;name=value` (or `-`) -/
+def assoc? {β : Type} (val : String → Option β) (s : String) : Option (List (String × β)) :=
+  if s = "-" then some [] else (s.splitOn ";").mapM fun kv =>
+    match kv.splitOn "=" with
+    | [k, v] => (val v).map fun b => (k, b)
+    | _ => none
+
 def handle : List String → Option String
+  /- `c09.wexpr <rule> <scalars name=bits;…> <integers name=n;…> <per-point name=bits,bits,…;…> <residual bits,…>`: the expression
+     translated from the source of `_weighting._<rule>` on this run, evaluated in `Float` at every point -/
+  | ["c09.wexpr", rule, sc, ns, pv, r] => do
+      let e ← (Gen.Src.table.find? (·.1 == rule)).map (·.2)
+      some (showF (← evalFloatVec e (← assoc? fbits? sc) (← assoc? String.toNat? ns) (← assoc? flist? pv) (← flist? r)))
   | ["c09.asls", p, r] => do some (out (ruleAsls (← fbits? p) (← flist? r)))
   | ["c09.arpls", r] => do some (out (ruleArpls (← flist? r)))
   | ["c09.drpls", it, r] => do some (out (ruleDrpls (← it.toNat?) (← flist? r)))
